@@ -1930,6 +1930,20 @@ class Program:
     def fn(self, fid):
         return self.fns.get(fid)
 
-    def find(self, suffix):
-        """functions whose id ends with ::suffix (or equals it)"""
-        return [f for k, f in self.fns.items() if k == suffix or k.endswith("::" + suffix)]
+    def find(self, suffix, _hops=0):
+        """functions whose id ends with ::suffix (or equals it).  A function of the pinned tree that no longer exists and had a single caller there
+        is looked for in that caller (its body was folded into it): tables/pinned_callers.json"""
+        hit = [f for k, f in self.fns.items() if k == suffix or k.endswith("::" + suffix)]
+        if hit or _hops >= 3 or "{" in suffix:
+            return hit
+        try:
+            import srclib as _sl
+            table = _sl._pinned_callers()
+        except Exception:  # noqa
+            table = {}
+        for fid, callers in table.items():
+            if (fid == suffix or fid.endswith("::" + suffix)) and len(callers) == 1:
+                self.relocated = getattr(self, "relocated", {})
+                self.relocated[suffix] = callers[0]
+                return self.find(callers[0], _hops + 1)
+        return hit
